@@ -194,4 +194,42 @@ theorem updateAll_perm (ms ms' : List Mineral) (chi : ℝ) (raws raws' : List (O
   rw [e, e]
   exact hperm.map _
 
+/-- **a bulk update that fails half-way**: the minerals before the failing one keep the snapshot they just received, the
+failing mineral and all later ones are exactly as before (nothing is rolled back, nothing else is touched), and no
+deformation gradient is returned. -/
+theorem updateAll_failure (pre post : List Mineral) (m : Mineral) (chi : ℝ)
+    (rpre rpost : List (Option (List (List ℝ))))
+    (hlen : pre.length = rpre.length)
+    (hall : ∀ i (hi : i < rpre.length), ∃ rs raw, rpre[i] = some rs ∧ rs.getLast? = some raw) :
+    updateAll (pre ++ m :: post) chi (rpre ++ none :: rpost)
+      = (List.zipWith (fun m r => (updateWith m chi r).1) pre rpre ++ m :: post, none) := by
+  induction pre generalizing rpre with
+  | nil =>
+    have : rpre = [] := by cases rpre <;> simp_all
+    subst this
+    simp [updateAll, updateWith]
+  | cons p pre ih =>
+    cases rpre with
+    | nil => simp at hlen
+    | cons r rpre =>
+      obtain ⟨rs0, raw0, hr0, hl0⟩ := hall 0 (by simp)
+      simp only [List.getElem_cons_zero] at hr0
+      subst hr0
+      have hlen' : pre.length = rpre.length := by simpa using hlen
+      have hall' : ∀ i (hi : i < rpre.length), ∃ rs raw, rpre[i] = some rs ∧ rs.getLast? = some raw := by
+        intro i hi
+        have := hall (i + 1) (by simp; omega)
+        simpa using this
+      have h := ih rpre hlen' hall'
+      cases hpre : pre with
+      | nil =>
+        subst hpre
+        have : rpre = [] := by cases rpre <;> simp_all
+        subst this
+        simp [updateAll, updateWith, hl0]
+      | cons p2 pre2 =>
+        subst hpre
+        simp only [List.cons_append, updateAll, updateWith, hl0, List.zipWith_cons_cons] at h ⊢
+        rw [h]
+
 end ModelR
